@@ -84,11 +84,25 @@ func drawConfig(tp *kernel.Tape, tier string) Config {
 	return c
 }
 
+// softKnown: a difference of an OPEN known-finding class (known_findings.json, passed by the driver in
+// VERIF_KNOWN_KEYS) is recorded and the run goes on. In a replay (VERIF_REPLAY), or with VERIF_KNOWN_HARD=1,
+// every class is an ordinary violation; VERIF_KNOWN_HARD=<key> makes just that class one (used to produce
+// and to re-check the minimal replays under findings/C47-*).
+func softKnown(key string) bool {
+	if !kernel.KnownKey("C47", key) {
+		return false
+	}
+	if h := os.Getenv("VERIF_KNOWN_HARD"); h != "" {
+		return !(h == "1" || h == key)
+	}
+	return os.Getenv("VERIF_REPLAY") == ""
+}
+
 // differ reports a difference. A difference whose key is an open known finding is recorded (once per
 // run) and the run goes on; anything else ends the run as a violation.
 func (s *Sim) differ(oracle, key, detail string) bool {
 	v := kernel.Violation{Property: "C47", Oracle: oracle, Key: key, Detail: detail, Step: s.step}
-	if kernel.KnownKey("C47", key) {
+	if softKnown(key) {
 		s.stat("known."+key, 1)
 		if !s.seenK[key] {
 			s.seenK[key] = true
@@ -211,19 +225,15 @@ func (s *Sim) classify(o *op, rs, rp []string) string {
 		if sqliteEmptyHistoryErr(o, rs) && eq(rp, o.exp) {
 			return keyHistoryEmpty
 		}
-	default:
-		if suffix, ok := pebbleKnownReaders[o.name]; ok && s.refOK(o, rs) {
-			return o.name + "/" + suffix
+	case "AccountsOnlineTop":
+		if o.devP != nil && eq(rs, o.exp) && eq(rp, o.devP) {
+			return keyOnlineTop
 		}
 	}
 	return o.name
 }
 
-// pebbleKnownReaders: readers whose generickv implementation is known to deviate (findings/C47-*); the
-// class applies only while SQLite's answer equals the reference model's.
-var pebbleKnownReaders = map[string]string{
-	"AccountsOnlineTop": "pebble-pages-raw-balance-index",
-}
+const keyOnlineTop = "AccountsOnlineTop/pebble-pages-raw-balance-index"
 
 func (s *Sim) refOK(o *op, lines []string) bool {
 	if o.exp != nil {
@@ -251,8 +261,8 @@ func (s *Sim) refKey(o *op, who string, lines []string) string {
 	if who == "pebble" && o.emptyAns != nil && eq(lines, o.emptyAns) {
 		return o.name + "/pebble-scans-raw-keyspace"
 	}
-	if suffix, ok := pebbleKnownReaders[o.name]; ok && who == "pebble" {
-		return o.name + "/" + suffix
+	if who == "pebble" && o.devP != nil && eq(lines, o.devP) {
+		return keyOnlineTop
 	}
 	return o.name + "/" + who
 }
